@@ -24,6 +24,10 @@ func storedValuesRules(c *core.Ctx, r *core.Report, rule string) {
 		if core.NamedOf(t) == tagArg {
 			return true
 		}
+		// the same map under another name (a generic multi-valued map the arguments are viewed as)
+		if _, isMap := t.Underlying().(*types.Map); isMap && types.Identical(t.Underlying(), tagArg.Underlying()) {
+			return true
+		}
 		if pt, ok := t.Underlying().(*types.Pointer); ok {
 			return core.NamedOf(pt.Elem()) == tagArg
 		}
